@@ -53,6 +53,7 @@ def handle (line : String) : String :=
   | "store" :: args => Driver.StoreP.handle args
   | "errval" :: args => Driver.ErrP.handle args
   | "classattr" :: args => Driver.ClsP.handle args
+  | "classmerge" :: args => Driver.ClsM.handle args
   | "normcolor" :: args => Driver.SmallP.colorHandle args
   | "dedup" :: args => Driver.SmallP.dedupHandle args
   | "fonttags" :: args => Driver.SmallP.tagsHandle args
